@@ -541,8 +541,9 @@ func (g *gen) genBodySwap() {
 			what = "votes of " + d.label
 		case 9: // votes altered: another round, re-marshalled / nil
 			if r.Intn(3) == 0 {
+				// nil votes decode to the empty vote list: a change only if the block has votes
 				b.Votes = nil
-				changed = true
+				changed = !bytes.Equal(a.bf.Votes, consensus.NewEmptyCommitVoteList().Bytes())
 				what = "votes nil"
 			} else if cvl, ok := w.nd.Chain.CommitVoteSetDecoder()(b.Votes).(*consensus.CommitVoteList); ok && cvl != nil {
 				var raw []interface{}
